@@ -10,18 +10,20 @@ for f in k["fixed"]:
     rows.append("| %s | %s | %s |" % (m.group(1), m.group(2), m.group(3).replace("|", "/")))
 fixed = "\n".join(rows)
 rows = ["| id | change | detected by |", "|---|---|---|"]
-n = missed = 0
+n = missed = undet = 0
 for d in sorted(glob.glob(os.path.join(V, "seeded", "*"))):
     m = json.load(open(os.path.join(d, "meta.json")))
     s = m["summary"].replace("\n", " ").replace("|", "/")
     if len(s) > 260:
         s = s[:257] + "..."
     n += 1
+    if not m.get("detected", True):
+        undet += 1
     if "missed" in m["detected_by"] or "after strengthening" in m["detected_by"]:
         missed += 1
     rows.append("| %s | %s | %s |" % (os.path.basename(d), s, m["detected_by"].replace("|", "/")))
 a = open(os.path.join(V, "tools", "design_partA.md")).read()
-a = a.replace("NFIXED", str(len(k["fixed"]))).replace("FIXED_TABLE", fixed).replace("SEEDED_TABLE", "\n".join(rows)).replace("NSEEDED", str(n)).replace("NMISSED", str(missed))
+a = a.replace("NFIXED", str(len(k["fixed"]))).replace("FIXED_TABLE", fixed).replace("SEEDED_TABLE", "\n".join(rows)).replace("NSEEDED", str(n)).replace("NMISSED", str(missed)).replace("NUNDET", str(undet))
 marker = "# Round-0 plan (kept for reference; part A above is authoritative)\n"
 old = open(os.path.join(V, "DESIGN.md")).read()
 rest = old.split(marker, 1)[1]
